@@ -37,7 +37,7 @@ CIR_KINDS = ["resistor", "conductance", "impedance", "admittance", "dc_voltage_s
 
 
 def budget_s(tier):
-    return 300 if tier == "quick" else 1800
+    return 1200 if tier == "quick" else 3600
 
 
 def cdict(z, notation):
